@@ -15,10 +15,10 @@ def st(fn, props, sub, replace=(), loops=None, **kw):
 
 
 BODY = 'per call: bytes delivered to the body sink == bytes consumed == -delta(bytes owed) == delta(message length) == delta(stream offset); the delivered range is exactly [read, read+n) of the chunk; body ends exactly when nothing is owed; DATA only with the chunk exhausted'
-st('htp_connp_REQ_BODY_IDENTITY', ['C06', 'C09', 'C01'], BODY, replace=['htp_tx_req_process_body_data_ex'])
-st('htp_connp_REQ_BODY_CHUNKED_DATA', ['C06', 'C09', 'C01'], BODY, replace=['htp_tx_req_process_body_data_ex'])
+st('htp_connp_REQ_BODY_IDENTITY', ['C06', 'C09', 'C03', 'C01'], BODY, replace=['htp_tx_req_process_body_data_ex'])
+st('htp_connp_REQ_BODY_CHUNKED_DATA', ['C06', 'C09', 'C03', 'C01'], BODY, replace=['htp_tx_req_process_body_data_ex'])
 
-st('htp_connp_REQ_BODY_CHUNKED_DATA_END', ['C06', 'C09', 'C01'], 'chunk trailer line: consumes through the first LF (none skipped), every byte taken is counted in consume/stream offset/message length, DATA only with the chunk exhausted; terminates',
+st('htp_connp_REQ_BODY_CHUNKED_DATA_END', ['C06', 'C09', 'C03', 'C01'], 'chunk trailer line: consumes through the first LF (none skipped), every byte taken is counted in consume/stream offset/message length, DATA only with the chunk exhausted; terminates',
    loops={'count': 1, 0: dict(
        assigns='connp->in_next_byte, connp->in_current_read_offset, connp->in_current_consume_offset, connp->in_stream_offset, connp->in_tx->request_message_len',
        inv=['connp->in_current_read_offset >= __CPROVER_loop_entry(connp->in_current_read_offset)', 'connp->in_current_read_offset <= connp->in_current_len',
